@@ -2724,6 +2724,34 @@ void mmd_d_string_update_metavalue_for_key(DString * source, const char * key, c
 }
 
 
+/// Where does the last key/value of a metadata block end?  For a block fenced
+/// YAML-style that is the start of the closing '---' line, otherwise the end
+/// of the block.
+static size_t metadata_values_end(const char * str, size_t meta_end) {
+	if ((meta_end < 7) || (strncmp(str, "---", 3) != 0)) {
+		return meta_end;
+	}
+
+	size_t pos = meta_end;
+
+	// Skip the line ending of the last line of the block ...
+	while (pos > 0 && char_is_line_ending(str[pos - 1])) {
+		pos--;
+	}
+
+	// ... and find where that line starts
+	while (pos > 0 && !char_is_line_ending(str[pos - 1])) {
+		pos--;
+	}
+
+	if ((pos > 3) && (strncmp(&str[pos], "---", 3) == 0)) {
+		return pos;
+	}
+
+	return meta_end;
+}
+
+
 /// Insert/replace metadata value in mmd_engine
 void mmd_engine_update_metavalue_for_key(mmd_engine * e, const char * key, const char * value) {
 	bool has_meta = true;
@@ -2733,6 +2761,9 @@ void mmd_engine_update_metavalue_for_key(mmd_engine * e, const char * key, const
 	if (!mmd_engine_has_metadata(e, &meta_end)) {
 		has_meta = false;
 	}
+
+	// New keys and the value of the last key stay inside a YAML fence
+	meta_end = metadata_values_end(e->dstr->str, meta_end);
 
 	// Get clean metadata key for match
 	char * clean = label_from_string(key);
